@@ -42,6 +42,9 @@ struct trie_node {
 	struct trie_node **children;
 	uint32_t num_children;
 	uint32_t refcount;
+	/* set by trie_rm(): the key is no longer part of the map, key and
+	 * value are only kept until the iterators positioned here move on */
+	int32_t removed;
 	struct trie_node *parent;
 	struct qb_list_head *notifier_head;
 };
@@ -72,6 +75,7 @@ static int32_t
 trie_node_alive(struct trie_node *node)
 {
 	if (node->value == NULL ||
+	    node->removed ||
 	    node->refcount <= 0) {
 		return QB_FALSE;
 	}
@@ -194,9 +198,11 @@ trie_node_split(struct trie *t, struct trie_node *cur_node, int seg_cnt)
 	split_node->value = cur_node->value;
 	split_node->key = cur_node->key;
 	split_node->refcount = cur_node->refcount;
+	split_node->removed = cur_node->removed;
 	cur_node->value = NULL;
 	cur_node->key = NULL;
 	cur_node->refcount = 0;
+	cur_node->removed = QB_FALSE;
 	/* move notifier list to split */
 	tmp = split_node->notifier_head;
 	split_node->notifier_head = cur_node->notifier_head;
@@ -392,6 +398,7 @@ trie_node_destroy(struct trie *t, struct trie_node *n)
 
 	n->key = NULL;
 	n->value = NULL;
+	n->removed = QB_FALSE;
 
 	trie_node_release(t, n);
 }
@@ -433,7 +440,8 @@ trie_node_ref(struct trie *t, struct trie_node *node)
 static void
 trie_node_deref(struct trie *t, struct trie_node *node)
 {
-	if (!trie_node_alive(node)) {
+	if (node->value == NULL ||
+	    node->refcount <= 0) {
 		return;
 	}
 	node->refcount--;
@@ -535,6 +543,13 @@ trie_put(struct qb_map *map, const char *key, const void *value)
 			trie_notify(n, QB_MAP_NOTIFY_INSERTED,
 				    n->key, NULL, n->value);
 		} else {
+			if (n->removed) {
+				/* removed, but iterators still hold the
+				 * node: the key comes back into the map */
+				n->removed = QB_FALSE;
+				trie_node_ref(t, n);
+				t->length++;
+			}
 			trie_notify(n, QB_MAP_NOTIFY_REPLACED,
 				    (char *)old_key, (void *)old_value,
 				    (void *)value);
@@ -547,7 +562,8 @@ trie_rm(struct qb_map *map, const char *key)
 {
 	struct trie *t = (struct trie *)map;
 	struct trie_node *n = trie_lookup(t, key, QB_TRUE);
-	if (n) {
+	if (n && trie_node_alive(n)) {
+		n->removed = QB_TRUE;
 		trie_node_deref(t, n);
 		t->length--;
 		return QB_TRUE;
@@ -561,7 +577,7 @@ trie_get(struct qb_map *map, const char *key)
 {
 	struct trie *t = (struct trie *)map;
 	struct trie_node *n = trie_lookup(t, key, QB_TRUE);
-	if (n) {
+	if (n && trie_node_alive(n)) {
 		return n->value;
 	}
 
@@ -752,7 +768,7 @@ trie_iter_next(qb_map_iter_t * i, void **value)
 		si->root = trie_lookup(t, si->prefix, QB_FALSE);
 		if (si->root == NULL) {
 			si->n = NULL;
-		} else if (si->root->value == NULL) {
+		} else if (!trie_node_alive(si->root)) {
 			si->n = trie_node_next(si->root, si->root, QB_FALSE);
 		} else {
 			si->n = si->root;
